@@ -529,8 +529,8 @@ func TestVerifKeepAlive(t *testing.T) {
 		}
 		for _, ln := range strings.Split(string(b), "\n") {
 			ln = strings.TrimSpace(ln)
-			if ln == "" || strings.HasPrefix(ln, "#") || ln == "reset" {
-				continue
+			if ln == "" || strings.HasPrefix(ln, "#") || ln == "reset" || strings.HasPrefix(ln, "kss ") {
+				continue // `kss` lines belong to the stream `sessions`
 			}
 			c, ok := kaParse(ln)
 			if !ok {
